@@ -205,6 +205,10 @@ func damageBytes(t *simrt.Tape, data []byte) {
 	if len(data) < 4096 {
 		return
 	}
+	if h := binary.LittleEndian.Uint32(data[28:]); int64(h)+4+4*512 > int64(len(data)) {
+		t.Draw(5)
+		return // already unreadable
+	}
 	switch t.Draw(5) {
 	case 0:
 		for i := 0; i < 6; i++ {
